@@ -67,6 +67,13 @@ class Facts:
                 continue
             decl = self.moddecl.get(m, [z3.BoolVal(True)])
             self.modcfg[m] = z3.And(self.modcfg.get(m[:-1], z3.BoolVal(True)), z3.Or(decl))
+        # dead_code lint level: allowed if the module declaration (or an ancestor's) or the file says so
+        self.mod_allow_dead = {(): bool(self.files.get((), {}).get('file_allow_dead'))}
+        for m in sorted(self.files, key=len):
+            f = self.files[m]
+            for d in f['mods']:
+                child = m + (nm(d['name']),)
+                self.mod_allow_dead[child] = self.mod_allow_dead.get(m, False) or bool(d.get('allow_dead')) or bool(self.files.get(child, {}).get('file_allow_dead'))
         self.defs = {}
         self.imports = {}
         self.globs = {}
@@ -257,6 +264,32 @@ def build_queries(facts):
             for (p, c, ln) in lst:
                 allow = any(it for it in f['items'] if False)
                 qs.append(dict(kind='unused-import', where=f"{f['path']}:{ln}", what=f'import `{name}` compiled but never referred to', formula=z3.And(eff, c, z3.Not(used), SOME)))
+    # 6. dead code: a free function or inherent associated function that is compiled under a subset in which nothing
+    #    refers to it (and no allow(dead_code) covers it) makes the build warn
+    refs = {}
+    for m, f in facts.files.items():
+        eff = facts.modcfg.get(m, z3.BoolVal(True))
+        for pth in f['paths']:
+            if pth['segments']:
+                refs.setdefault(nm(pth['segments'][-1]), []).append(z3.And(eff, zcfg(pth['cfg'])))
+        for mc in f.get('method_calls', []):
+            refs.setdefault(nm(mc['name']), []).append(z3.And(eff, zcfg(mc['cfg'])))
+        for mi in f['macro_idents']:
+            refs.setdefault(nm(mi['name']), []).append(z3.And(eff, zcfg(mi['cfg'])))
+        for u in f['uses']:
+            if u['path']:
+                refs.setdefault(nm(u['path'][-1]), []).append(z3.And(eff, zcfg(u['cfg'])))
+    for m, f in facts.files.items():
+        if facts.mod_allow_dead.get(m, False):
+            continue
+        eff = facts.modcfg.get(m, z3.BoolVal(True))
+        cands = [(a['name'], a['cfg'], a['line'], f"{a['self_ty']}::{a['name']}") for a in f.get('assoc_fns', []) if not a['trait'] and not a['allow_dead']]
+        cands += [(it['name'], it['cfg'], it['line'], it['name']) for it in f['items'] if it['kind'] == 'fn' and it.get('fn') is None and not it.get('allow_dead') and it['name'] not in ('main',)]
+        for name, cfg, ln, label in cands:
+            if m == () and name in ('educe_derive', 'verif_expand'):
+                continue
+            used = z3.Or(refs.get(nm(name), []))
+            qs.append(dict(kind='dead-code', where=f"{f['path']}:{ln}", what=f'`{label}` is compiled but nothing that is compiled refers to it (dead_code warning)', formula=z3.And(eff, zcfg(cfg), z3.Not(used), SOME)))
     # 3. Trait variants, from_path arms gated by exactly their feature
     st = facts.files.get(('supported_traits',))
     if st:
